@@ -757,3 +757,47 @@ def check_clear_complete(ctx):
                    detail=None if attr in reset else
                    'survives clear(): the second report formatted by the '
                    'same object starts from the state the first one left')
+
+
+# ----------------------------------------------------------- PAGE-SUFFIX ---
+
+def check_page_suffix(ctx):
+    """The file of a page is the path of its titles PLUS '.rst' (appended to
+    the name).  `Path.with_suffix('.rst')` REPLACES what follows the last dot
+    of the title: 'Fe56, 0.1 MeV' and 'Fe56, 0.5 MeV' both become
+    'Fe56, 0.rst' - one page overwrites the other, the table of contents
+    points at pages that were never written - and the duplicate-title guard,
+    which compares the titles, sees nothing."""
+    program = ctx.program
+    mod = program.module(RST)
+    program.consulted.add(mod.relpath)
+    n = 0
+    bad = 0
+    for func in mod.functions.values():
+        if func.cls is None or func.cls.name not in ('FormattedRst', 'Rst'):
+            continue
+        n += 1
+        for call in calls_in(func.node):
+            if call_name(call) in ('with_suffix', 'splitext') or (
+                    isinstance(call.func, ast.Attribute) and
+                    call.func.attr == 'with_suffix'):
+                bad += 1
+                ctx.violated('PAGE-SUFFIX', func,
+                             f'{func.name}: {txt(call)[:60]}',
+                             at=func.where(call),
+                             detail='a title may contain dots: the part '
+                                    'after the last one is taken for a file '
+                                    'extension and replaced')
+        for node in walk_local(func.node):
+            if isinstance(node, ast.Attribute) and node.attr in ('stem',) \
+                    and 'tree' in txt(node):
+                bad += 1
+                ctx.violated('PAGE-SUFFIX', func,
+                             f'{func.name}: {txt(node)[:60]}',
+                             at=func.where(node),
+                             detail='.stem drops what follows the last dot '
+                                    'of a title')
+    ctx.floor('PAGE-SUFFIX', n, 5, 'methods of Rst / FormattedRst')
+    if not bad:
+        ctx.holds('PAGE-SUFFIX', RST, f'{n} methods: the page extension is '
+                  f'appended, never substituted', nontrivial=False)
